@@ -29,6 +29,7 @@ type C17Case struct {
 	User       string  `json:"user"`
 	Realm      string  `json:"realm"`
 	DurationS  int64   `json:"duration_s"`
+	DurationMs int     `json:"duration_ms,omitempty"` // added to DurationS: durations are not whole seconds in general
 	OffsetMs   int     `json:"offset_ms"`             // generation happens this long after a whole second
 	Window     int     `json:"window"`                // probe every second in [expiry-window, expiry+window]
 	Extra      []int64 `json:"extra,omitempty"`       // further probe instants, seconds relative to expiry
@@ -60,7 +61,7 @@ func runC17Inner(c *C17Case) (string, string) { //nolint:cyclop,gocyclo
 	log := sim.NewLogger(0).NewLogger("c17")
 	time.Sleep(time.Duration(c.OffsetMs) * time.Millisecond)
 	genAt := time.Now()
-	dur := time.Duration(c.DurationS) * time.Second
+	dur := time.Duration(c.DurationS)*time.Second + time.Duration(c.DurationMs)*time.Millisecond
 	var username, password string
 	var err error
 	var handler turn.AuthHandler
@@ -222,6 +223,9 @@ func genC17(rt *rapid.T) *C17Case {
 		rapid.Int64Range(0, 4000000000),
 	).Draw(rt, "duration")
 	c.OffsetMs = rapid.SampledFrom([]int{0, 0, 1, 250, 500, 999}).Draw(rt, "offset")
+	if c.DurationS > -1000000 && c.DurationS < 4000000000 && rapid.IntRange(0, 2).Draw(rt, "fractional") == 0 {
+		c.DurationMs = rapid.SampledFrom([]int{1, 250, 500, 750, 999, -1, -250, -500, -999}).Draw(rt, "durMs")
+	}
 	c.Window = 5
 	n := rapid.IntRange(0, 3).Draw(rt, "nextra")
 	for i := 0; i < n; i++ {
@@ -242,6 +246,9 @@ func TestC17(t *testing.T) {
 	do := func(c *C17Case, sample string) (string, string) {
 		r.Eval(1)
 		r.Label("kind:" + c.Kind)
+		if c.DurationMs != 0 {
+			r.Label("duration-with-a-fraction-of-a-second")
+		}
 		if c17NonTrivial(c) {
 			r.NonTrivial(vkit.Hash64(c))
 			if strings.Contains(c.User, ":") {
